@@ -123,6 +123,10 @@ def check(ctx):
             t = as_len_test(cnd, v)
             if t is not None and t[0] == ('call', ('ext', 'pandas.bdate_range'), (sd, sd), ()):
                 biz = t[1] == 'nonempty'
+        if p.outcome == 'return' and biz is None and not p.conds:
+            ctx.violation('C13.S1', 'buy-and-hold: the instant is the start if it is a business day, else the next business day', fn.site(),
+                          'the schedule is %s on every path - it never tests whether the start is a business day' % fmt(p.value)[:100], key='C13.S1|bah|no-test')
+            continue
         if biz is None or p.outcome != 'return':
             ctx.undecided('C13.S1', 'buy-and-hold branches on whether the start is a business day', fn.site(), cond_str(p)[:160])
             continue
